@@ -29,7 +29,7 @@ pub enum HostileOp {
     Multi(crate::checks::multidev::MdOp),
     /// member encrypts a rumor it forged. mode: 0 foreign pubkey (victim), 1 preset id = existing
     /// message of another author (victim_msg), 2 preset id = own earlier message, 3 wrong hash id,
-    /// 4 honest-looking but arbitrary kind/tags/created_at
+    /// 4 honest-looking but arbitrary kind/tags/created_at, 5 own rumor dated (far) in the future
     ForgedRumor { g: usize, mode: u8, victim: usize, victim_msg: Option<EvRef>, tag: u32 },
     /// re-wrap the MLS ciphertext of a published event in a fresh wrapper. mode: 0 same group,
     /// 1 other group's h tag (g2), 2 future timestamp inside skew, 3 duplicate-content new key
@@ -351,7 +351,7 @@ pub fn exec(w: &mut World, step: &Step, h: HostileOp) -> Outcome {
             let content = format!("FORGED-{}-{}-{} by n{node}", w.seed % 100_000, step.id, tag);
             let mut rumor = EventBuilder::new(Kind::Custom(if mode == 4 { 30_000 + (tag % 100) as u16 } else { 9 }), content.clone())
                 .tags(vec![Tag::custom(TagKind::Custom("t".into()), [format!("forged{tag}")])])
-                .custom_created_at(Timestamp::from(if mode == 4 { 1 } else { node_now }))
+                .custom_created_at(Timestamp::from(if mode == 4 { 1 } else if mode == 5 { node_now + 400 + (tag as u64 % 7) * 100_000 } else { node_now }))
                 .build(if mode == 0 { victim_pk } else { own_pk });
             rumor.ensure_id();
             match mode {
